@@ -476,6 +476,32 @@ def main():
         import changecov
         not_ex = changecov.unexecuted(cov_targets, cov_hit)
         if not_ex:
+            # changed statements this property's own inputs do not reach (an option of a shared constructor, ...):
+            # the checks of the other properties that model the function they sit in run here too, as above
+            deps_all, ch_all = dependency_props(prop, getattr(mod, 'FUNCTIONS', []), fp['changed'])
+            tried = set(deps[:4]) if fp['changed'] else set()
+            for q in deps_all:
+                if not not_ex or len(tried) >= 10:
+                    break
+                if q in tried:
+                    continue
+                modq = importlib.import_module(q.lower())
+                want = set('%s:%s' % (t['file'], t['fn']) for t in not_ex)
+                if not (set(getattr(modq, 'FUNCTIONS', [])) & want):
+                    continue
+                tried.add(q)
+                aggq = run_harness(q, 'quick', seed, 1.0, hot)
+                cov_hit |= set(aggq['cov_hit'])
+                newq = [f for f in aggq['pred_fail'] if not match_known(f, known, q, modq)]
+                before = len(not_ex)
+                not_ex = changecov.unexecuted(not_ex, cov_hit)
+                log('[S] dependency %s (models %s): %d mismatches, %d new predicate failures; executes %d more changed statements' % (
+                    q, ', '.join(sorted(w.split(':')[1] for w in want)[:3]), aggq['n_mism'], len(newq), before - len(not_ex)))
+                if aggq['n_mism'] or newq:
+                    broken.append({'dependency': q, 'mismatches': aggq['mism'][:3], 'predicate_failures': newq[:3],
+                                   'why': 'the check of the property that models a changed helper of this property\'s code (%s) '
+                                          'no longer ties it to the code / finds it violating its own clauses' % q})
+        if not_ex:
             log('[S] %d of %d changed statements in the call closure were not executed by this check: %s' % (
                 len(not_ex), len(cov_targets), ', '.join('%s:%d' % (t['file'], t['first']) for t in not_ex[:6])))
             broken.append({'not_exercised': not_ex[:30], 'why': 'changed statements of the implementation that no call of '
